@@ -367,6 +367,7 @@ def r40_broadcast(facts):
     if so is None:
         c.unk("align:sliced_op", "-", "sliced_op not found")
         return c
+    _sliced_validity(facts, c, so)
     ps = [p for p in facts.params(so) if p.get("pat")]
     in_dims = ps[3]["pat"].get("v") if len(ps) > 3 and ps[3]["pat"].get("k") == "Binding" else None
     right, left = [], []
@@ -429,3 +430,102 @@ def r40_alignment_only(facts):
     c.analysed = {}
     c.title = "alignment consistency of the slice walk (sliced_op)"
     return c
+
+
+def _sliced_validity(facts, c, so):
+    """the refusal of sliced_op: EVERY operand must have EVERY (non-sliced) dimension equal to 1 or to the target's"""
+    from .config_rules import _panics
+    root = facts.root(so)
+    lets = {}
+    for n in walk(root):
+        if n.get("k") == "Block":
+            for st in n["stmts"]:
+                if st["s"] == "let" and st["pat"].get("k") == "Binding" and st.get("init") is not None:
+                    lets[st["pat"]["v"]] = st["init"]
+    ps = [p for p in facts.params(so) if p.get("pat")]
+    arrv = ps[0]["pat"].get("v") if ps and ps[0]["pat"].get("k") == "Binding" else None
+    found = None
+    for n in walk(root):
+        if n.get("k") == "If" and n.get("else") is None and _panics(n["then"]):
+            cond = strip(n["cond"])
+            neg = False
+            while isinstance(cond, dict) and cond.get("k") == "Unary" and cond.get("op") == "Not":
+                cond = strip(cond["e"])
+                neg = not neg
+            hops = 0
+            while isinstance(cond, dict) and cond.get("k") == "VarRef" and cond["v"] in lets and hops < 3:
+                cond = strip(lets[cond["v"]])
+                hops += 1
+            while isinstance(cond, dict) and cond.get("k") == "Block" and cond.get("e") is not None and not cond["stmts"]:
+                cond = strip(cond["e"])
+            if neg and isinstance(cond, dict) and cond.get("k") == "Call" and (callee(cond) or "").startswith(IT) and any(
+                    x.get("k") in ("VarRef", "UpvarRef") and x["v"] == arrv for x in walk(cond["args"][0])):
+                found = (n, cond)
+    inst = "align:validity"
+    if found is None:
+        c.unk(inst, F.loc(so, root), "the assertion that refuses operands which do not broadcast to the target is not in a recognised form")
+        return
+    n, cond = found
+    outer = (callee(cond) or "").rsplit("::", 1)[-1]
+    clo = strip(cond["args"][1]) if len(cond["args"]) > 1 else None
+    cb = facts.body(clo["closure"]) if isinstance(clo, dict) and clo.get("k") == "Closure" else None
+    inner = None
+    pred = None
+    if cb is not None:
+        for x in walk(facts.root(cb)):
+            if x.get("k") == "Call" and (callee(x) or "") in (IT + "all", IT + "any") and len(x["args"]) == 2:
+                inner = (callee(x) or "").rsplit("::", 1)[-1]
+                pc = strip(x["args"][1])
+                pred = facts.body(pc["closure"]) if isinstance(pc, dict) and pc.get("k") == "Closure" else None
+    if outer not in ("all", "any") or inner is None or pred is None:
+        c.unk(inst, F.loc(so, n), "the broadcast-validity condition is not `arrays.iter().all(|v| dims.zip(target).all(|(x, y)| ..))`")
+        return
+    # the per-dimension predicate on the grid {1,2,3}^2: true exactly when x == 1 or x == y
+    pvars = [v for p_ in facts.params(pred) if p_.get("pat") for v, _, _, _ in F.pat_bindings(p_["pat"])]
+
+    def num(e, env):
+        e = strip(e)
+        k = e.get("k") if isinstance(e, dict) else None
+        if k == "Literal":
+            return lit_value(e)
+        if k in ("VarRef", "UpvarRef"):
+            return env.get(e["v"])
+        if k in ("Deref", "Borrow", "Use"):
+            return num(e["e"], env)
+        if k == "Block" and e.get("e") is not None and not e["stmts"]:
+            return num(e["e"], env)
+        if k == "Binary":
+            a, b_ = num(e["l"], env), num(e["r"], env)
+            if a is None or b_ is None:
+                return None
+            return {"Eq": a == b_, "Ne": a != b_, "Lt": a < b_, "Le": a <= b_, "Gt": a > b_, "Ge": a >= b_}.get(e["op"])
+        if k == "LogicalOp":
+            a, b_ = num(e["l"], env), num(e["r"], env)
+            if a is None or b_ is None:
+                return None
+            return (a and b_) if e["op"] == "And" else (a or b_)
+        if k == "Unary" and e.get("op") == "Not":
+            a = num(e["e"], env)
+            return None if a is None else (not a)
+        return None
+    wrong = None
+    undecided = False
+    if len(pvars) == 2:
+        for x in (1, 2, 3):
+            for y in (1, 2, 3):
+                v = num(facts.root(pred), {pvars[0]: x, pvars[1]: y})
+                if v is None:
+                    undecided = True
+                elif bool(v) != (x == 1 or x == y):
+                    wrong = wrong or (x, y, v)
+    else:
+        undecided = True
+    if outer != "all" or inner != "all":
+        c.bad(inst, F.loc(so, n), "sliced_op accepts its operands if %s operand has %s dimension compatible with the target: operands that do not broadcast are walked anyway "
+              "(every operand, every dimension must be 1 or equal to the target's)" % ("SOME" if outer == "any" else "every", "SOME" if inner == "any" else "every"))
+    elif wrong:
+        c.bad(inst, F.loc(so, n), "the per-dimension compatibility test is %s for an operand dimension %d against a target dimension %d (it must hold exactly when the operand's is 1 or equal)" % (wrong[2], wrong[0], wrong[1]))
+    elif undecided:
+        c.unk(inst, F.loc(so, n), "the per-dimension compatibility test is not a Boolean expression of the two dimensions")
+    else:
+        c.ok(inst, F.loc(so, n), "every operand, every non-sliced dimension: 1 or equal to the target's (checked on {1,2,3} x {1,2,3})")
